@@ -181,6 +181,7 @@ struct Flags {
    bool safe_spellings = false;    // C17/C18: identifiers and literals that cannot spell a location token
    bool fill_at_creation = false;  // C05: settable links are set inside the creating op and never re-assigned
    bool no_junk = false;
+   bool no_locate = false;         // C17: the location-free twin of a program
    bool distinct_operands = true;
    int bulk_limit = 640;
    int print_weight_cap = 2000;
@@ -194,6 +195,7 @@ struct PrintResult {
    bool stream_state_changed = false;
    std::string stream_state_detail;
    int indent_before = 0, indent_after = 0;
+   std::size_t max_stack = 0;   // deepest stack seen by the stream buffer during the print
    std::string probe;           // how numbers render through the same printer / stream after the node
 };
 enum PrintWhat { P_UNIT, P_DECL, P_TYPE, P_EXPR, P_STMT };
@@ -339,6 +341,7 @@ struct World {
    std::map<const ipr::impl::General_substitution*, std::map<const ipr::Parameter*, const ipr::Expr*>> gsubst_model;
    std::map<const ipr::impl::Elementary_substitution*, std::pair<const ipr::Parameter*, const ipr::Expr*>> esubst_model;
    std::set<std::string> spellings;                      // every spelling handed to the library
+   std::set<std::string> stamped_locations;              // every F<file>:<line>[:<col>] a LOCATE op ever stamped (decimal)
    int step = 0;
    long junk_bytes = 0;
    std::vector<std::unique_ptr<char[]>> junk;
@@ -384,6 +387,7 @@ struct World {
    ScopeModel& add_scope(ipr::impl::Region* r);
    void note(const std::string& s) { if (trace.size() < 4000) trace.push_back(s); }
    const char* intern_name(const std::string&);
+   static const char* intern_static(const std::string&);   // process-lifetime copy (accessor names)
    std::set<std::string> name_store;
 
    void run(const Case& c);                 // execute all ops
